@@ -314,3 +314,14 @@ reg("C11", "exploration", "TLA+ law SendOk (SendPath.tla: accepted => every queu
     "does and parsed back. TLC judges each call.",
     "Trusted: TLC; classification of the argument kind (number / text / list / foreign) per API in the driver.",
     "DESIGN.md section 5 C11", driver="c11", entry="run")
+
+reg("C38", "model_checking", "TLC exhaustive on EagerDecode (two receive paths, SameState invariant; deviation 'use the attached value whenever present' must give a counterexample) + law TelegramOk judged by TLC on a differential run of two real XKNX instances",
+    "Model: every table setting x every payload for own types A and B, invariants SameState and CarriesTableValue; the deviation configuration is required to violate SameState. Binding: two "
+    "started XKNX instances (virtual time) with the same ~60 devices behind which every RemoteValue class sits (inverted switches / covers, climate with modes and setpoint shift, light with "
+    "every colour mode, sensors and numeric values of 16 value types, raw values, strings, date / time, weather); one has group_address_dpt.set(table) with, per round, the remote value's own "
+    "type / another type of the same payload shape / a super- or subclass / a type of another shape / a random mix including missing and invalid entries (as DPT number string, dict and "
+    "value-type name); the same 700 (thorough: 3000) incoming GroupValueWrite / Response / Read telegrams per round with payloads of the right and of wrong shapes. After every telegram "
+    "TLC judges: decoded data attached exactly when the table's type decodes the payload, its value is that type's, none attached without a table, both instances ran the callbacks, and "
+    "the state of every remote value and device property is equal in both instances.",
+    "Trusted: TLC; repr-equality of device state; the reference value is the table type's own from_knx called separately.",
+    "DESIGN.md section 5 C38", driver="c38", entry="run")
